@@ -2,6 +2,7 @@ package replication
 
 import (
 	"fmt"
+	"sync"
 
 	"github.com/pkg/errors"
 	"google.golang.org/grpc"
@@ -21,6 +22,10 @@ type GRPCReplicationServer struct {
 	CertKeyFile string
 	// Key: IPAddr (e.g. "192.125.18.1:25"), Value: channel for messages sent to each gRPC stream
 	StreamChannels map[string]chan []byte
+	// mu guards StreamChannels. SendReplicationMessage holds it for reading while it iterates over the map
+	// and sends to the channels; a stream takes it for writing to register, and to unregister and close its channel,
+	// so a channel is never closed while the sender may still send to it.
+	mu sync.RWMutex
 }
 
 func NewGRPCReplicationServer() *GRPCReplicationServer {
@@ -49,7 +54,9 @@ func (rs *GRPCReplicationServer) GetWALStream(_ *pb.GetWALStreamRequest, stream 
 	log.Info(fmt.Sprintf("new replica connection from:%s", clientAddr))
 
 	streamChannel := make(chan []byte, defaultReplicationStreamChannelSize)
+	rs.mu.Lock()
 	rs.StreamChannels[clientAddr] = streamChannel
+	rs.mu.Unlock()
 
 	// infinite loop
 	for {
@@ -68,9 +75,18 @@ func (rs *GRPCReplicationServer) GetWALStream(_ *pb.GetWALStreamRequest, stream 
 		log.Debug("successfully sent a replication message")
 	}
 
-	// when an error occurred / client connection is closed, close the channel
+	// when an error occurred / client connection is closed, close the channel.
+	// Keep draining it until it is closed, so that a sender which is blocked on this channel (and holds the read lock)
+	// can finish and let us take the write lock.
+	go func() {
+		for range streamChannel {
+			// discard: this replica is gone
+		}
+	}()
+	rs.mu.Lock()
 	delete(rs.StreamChannels, clientAddr)
 	close(streamChannel)
+	rs.mu.Unlock()
 	log.Info(fmt.Sprintf("[master] closed replication connection: %v", clientAddr))
 
 	return nil
@@ -78,6 +94,8 @@ func (rs *GRPCReplicationServer) GetWALStream(_ *pb.GetWALStreamRequest, stream 
 
 func (rs *GRPCReplicationServer) SendReplicationMessage(transactionGroup []byte) {
 	// send a replication message to each replica
+	rs.mu.RLock()
+	defer rs.mu.RUnlock()
 	for ip, channel := range rs.StreamChannels {
 		log.Debug("sending a replication message to %s", ip)
 		channel <- transactionGroup
